@@ -71,7 +71,7 @@ props = [json.loads(l)['id'] for l in (V / 'properties.jsonl').read_text().split
 na = [{'property_id': p, 'reason': NOT_APPLICABLE.get(p, TODO_REASON)} for p in props if p not in CLAIMED]
 man = {
     'version': 1,
-    'setup_cmd': 'cd lean && lake build BC Driver bcdrv',
+    'setup_cmd': 'cd lean && lake build BC bcdrv',
     'hooks': {'guard': 'PYBC_VERIF', 'enable': 'no source hooks are needed: the harness wraps objects of the imported package in-process',
               'baseline_off_cmd': 'cd /repo && /venv/bin/python -m pytest -ra -q -p no:cacheprovider --timeout=900 --continue-on-collection-errors',
               'source_commits': [], 'add_only': True},
